@@ -28,7 +28,6 @@ import (
 	"math/rand"
 	"os"
 	"path/filepath"
-	"runtime/pprof"
 	"sort"
 	"strings"
 
@@ -882,18 +881,12 @@ func main() {
 	wfix.Quiet()
 	r := vf.Start("C19", "exploration")
 	n := r.Pick(150, 5000)
-	if pf := os.Getenv("VERIF_CPUPROFILE"); pf != "" {
-		f, _ := os.Create(pf)
-		_ = pprof.StartCPUProfile(f)
-		n = 16
-	}
 	vf.Parallel(n, 16, func(i int) {
 		panicked, msg, frame := vf.Recover(func() { runSequence(r, i) })
 		if panicked {
 			r.Violation("panic", map[string]string{"frame": frame, "msg": msg}, map[string]interface{}{"sequence": i})
 		}
 	})
-	pprof.StopCPUProfile()
 	q := r.Quick()
 	fl := func(k string, qv, tv int64) {
 		if q {
